@@ -56,8 +56,11 @@ func pickS(t *rapid.T, label string, xs ...string) string { return xs[uniformInt
 
 // drawRVProgram draws a program of n instructions from templates which keep
 // execution inside the image (apart from deliberately bad indirect targets).
-func drawRVProgram(t *rapid.T, maxIns int) *rvProgram {
-	n := 4 + uniformInt(t, maxIns-3, "n")
+func drawRVProgram(t *rapid.T, maxIns int) *rvProgram { return drawRVProgramMin(t, 4, maxIns) }
+
+// drawRVProgramMin draws a program of minIns..maxIns instructions.
+func drawRVProgramMin(t *rapid.T, minIns, maxIns int) *rvProgram {
+	n := minIns + uniformInt(t, maxIns-minIns+1, "n")
 	p := &rvProgram{data: irsem.GenBytes(t, rvDataLen, "data")}
 	emit := func(in *rvref.Ins, f rvref.Fields) {
 		w := rvref.Enc(in, f)
